@@ -2,7 +2,9 @@
 //! known findings, watchdog, worker sharding and evidence output.
 
 pub mod aio;
+pub mod fuzz;
 pub mod logcap;
+pub mod panics;
 pub mod watchdog;
 pub mod world;
 
@@ -411,6 +413,7 @@ impl Ctx {
         let result = runner.run(&strategy, |case| {
             let value = serde_json::to_value(&case).unwrap_or(Value::Null);
             watchdog::begin_case(prop, name, &value);
+            let panics_before = panics::count();
             let verdict = match std::panic::catch_unwind(AssertUnwindSafe(|| suite.check(&case))) {
                 Ok(v) => v,
                 Err(e) => {
@@ -428,6 +431,13 @@ impl Ctx {
                 }
             };
             watchdog::end_case();
+            let verdict = match verdict {
+                Ok(()) if panics::count() > panics_before => Err(Violation {
+                    sig: format!("panic:background-task:{}", panics::last_site()),
+                    msg: format!("a panic happened in a background task or thread during this case: {}", panics::last_message()),
+                }),
+                v => v,
+            };
             let extra = take_extra();
             let mut st = st.borrow_mut();
             let st = &mut *st;
@@ -520,11 +530,16 @@ impl Ctx {
             return false;
         };
         watchdog::begin_case(self.prop, name, case);
+        let panics_before = panics::count();
         let verdict = match std::panic::catch_unwind(AssertUnwindSafe(|| suite.check(&case_t))) {
+            Ok(Ok(())) if panics::count() > panics_before => Err(Violation {
+                sig: format!("panic:background-task:{}", panics::last_site()),
+                msg: format!("a panic happened in a background task or thread during this case: {}", panics::last_message()),
+            }),
             Ok(v) => v,
             Err(_) => Err(Violation {
                 sig: format!("panic:{}", name),
-                msg: "panic".into(),
+                msg: format!("panic: {}", panics::last_message()),
             }),
         };
         watchdog::end_case();
